@@ -330,6 +330,12 @@ class Ctx:
         print("%s tier=%s seed=%d obligations=%d/%d evaluations=%s nontrivial=%s violations=%d known=%d wall=%.0fs" % (
             self.pid, self.tier, self.seed, self.discharged, self.obligations, cov.get("evaluations"),
             cov.get("distinct_nontrivial"), len(self.violations), len(self.known_hits), time.time() - self.t0), flush=True)
+        # journals and driver outputs of this run (they can be gigabytes); replays hold what is needed to re-run a case
+        if not os.environ.get("VERIF_KEEP"):
+            me = str(os.getpid())
+            for d in os.listdir(BUILD):
+                if d.startswith("run-") and d.split("-")[-1] == me:
+                    shutil.rmtree(os.path.join(BUILD, d), ignore_errors=True)
         sys.exit(1 if self.violations else 0)
 
 
